@@ -98,6 +98,13 @@ CHECKS = {
         technique=MC_TECH + " (all object chains x all object/type functions, differential against reference definitions)",
         design="DESIGN.md §4 C13",
     ),
+    "C17": dict(
+        category="exploration",
+        text="Every token sequence / character string of the C06 sequence spaces, a 13-item unicode/CRLF/comment alphabet and the repository inputs: lexer tokens tile the input on character boundaries, the syntax tree prints back the input, every span of the evaluator's tree is a character range covering what it labels. Every construct of 12 (error, assert, std.trace, undefined variable, missing field, missing argument, stray bracket; one- and two-line spellings) planted after every sequence of <= k preceding lines (ASCII, 2/3/4-byte characters, non-ASCII comment, blank, CRLF), behind every same-line prefix (none, spaces, tab, ASCII code, non-ASCII code) and before every trailer: line of the real CompactFormat trace / syntax error location / StdTracePrinter output (fd 2 captured) equals the planted line; columns equal the stand-alone location shifted by the prefix whenever the prefix is ASCII.",
+        note="Trusted: the location a construct reports alone at the start of a file (sanity-checked to lie inside the construct) defines what the implementation points at.",
+        technique=MC_TECH + " (all token/character sequences for tiling and spans; all planted-position frames, differential against the stand-alone placement)",
+        design="DESIGN.md §4 C17",
+    ),
     "C19": dict(
         category="exploration",
         text="Every generated whole-grammar program (<= k constructs), every single insertion of a block / line / trailing / hash comment at every token boundary and comments at every boundary at once, every short string literal in the four quotings and every small text block (tabs, blank and whitespace-only lines, both terminators), plus the repository inputs: the formatter declines or prints text that the evaluator's default parser accepts with the same position-free tree (modulo the two documented sugar equivalences), and the comment sequence of the output equals that of the input.",
